@@ -826,11 +826,11 @@ pub fn run_c08(tier: Tier, seed: u64) -> i32 {
         tier,
         seed,
         "exploration",
-        "sorts (multi-key, ASC/DESC, NULLS FIRST/LAST, all key types incl. boolean and date), top-k (ORDER BY .. LIMIT k [OFFSET m] under a total order), inner and outer joins, grouped aggregates incl. COUNT(DISTINCT) over small and medium tables registered in several batches; every statement is executed with unlimited memory and under limits {64 B, 4 KiB, 16 KiB, 64 KiB, 1 MiB}; an Ok answer under a limit must equal the unlimited answer (sequence under ORDER BY up to identical rows, multiset otherwise), an explicit error is allowed. distinct = distinct (statement skeleton, limit) whose unlimited answer is non-empty",
+        "sorts (multi-key, ASC/DESC, NULLS FIRST/LAST, all key types incl. boolean and date), top-k (ORDER BY .. LIMIT k [OFFSET m] under a total order), inner and outer joins, grouped aggregates incl. COUNT(DISTINCT) over small and medium tables registered in several batches; every statement is executed with unlimited memory and under limits {64 B, 4 KiB, 16 KiB, 64 KiB, 1 MiB, 3 MiB}; an Ok answer under a limit must equal the unlimited answer (sequence under ORDER BY up to identical rows, multiset otherwise), an explicit error is allowed. distinct = distinct (statement skeleton, limit) whose unlimited answer is non-empty",
     );
     let n_dbs = tier.pick(40, 700);
     let per_db = tier.pick(16, 24);
-    let limits: Vec<usize> = vec![64, 4 << 10, 16 << 10, 64 << 10, 1 << 20];
+    let limits: Vec<usize> = vec![64, 4 << 10, 16 << 10, 64 << 10, 1 << 20, 3 << 20];
     let seeds: Vec<u64> = (0..n_dbs).map(|i| seed.wrapping_mul(3_000_017).wrapping_add(i as u64)).collect();
     par_run(&mut rep, seeds, default_threads(), |sd| {
         let mut rng = Rng::new(sd ^ 0xC08);
@@ -874,6 +874,12 @@ pub fn run_c08(tier: Tier, seed: u64) -> i32 {
                     let on = if crate::qgen::pair_est(a, on.0, b, on.1) + (a.rows.len() + b.rows.len()) as f64 > crate::qgen::JOIN_ROW_CAP { ("id", "id") } else { on };
                     let core = format!("SELECT {} AS c0, {} AS c1, COUNT(*) AS c2, MIN(r1.i1) AS c3 FROM {} AS r0 {} JOIN {} AS r1 ON r0.{} = r1.{} GROUP BY {}, {}", keys.0, keys.1, a.name, jt, b.name, on.0, on.1, keys.0, keys.1);
                     GenQuery { sql: core.clone(), full_sql: core, keys: vec![], limit: None, offset: 0, tags: vec![format!("{} JOIN", jt), "group-by".into(), "outer-join-agg".into()], ncols: 4 }
+                }
+                // an inner join on a composite key with a BOOLEAN part (key types of the spilled join)
+                4 if g.rng.chance(1, 3) => {
+                    let (a, b) = (&db[g.rng.usize(db.len())], &db[g.rng.usize(db.len())]);
+                    let core = format!("SELECT r0.id AS c0, r1.id AS c1, r0.b0 AS c2 FROM {} AS r0 JOIN {} AS r1 ON r0.b0 = r1.b0 AND r0.id = r1.id", a.name, b.name);
+                    GenQuery { sql: core.clone(), full_sql: core, keys: vec![], limit: None, offset: 0, tags: vec!["JOIN".into(), "boolean-key".into()], ncols: 3 }
                 }
                 // aggregates, mostly over joins
                 4..=6 => g.q_agg(&db, 2),
